@@ -4,7 +4,7 @@
    fragment-buffer gate in front of every record), Frag/Buffer.v (reassembly buffer).
    "No panic" is decided by the harness on the real code (a total Gallina function has no panic:
    every panic of the implementation on an input the model maps to a value is a violation). *)
-From DtlsV Require Import Lib.Bytes Gen.Generated Rec.Window Rec.Recv Rec.RecvSound Rec.C08Robust Rec.C08RobustSound
+From DtlsV Require Import Lib.Bytes Gen.Generated Rec.Window Rec.Recv Rec.RecvSound Rec.C08Robust Rec.C08RobustSound Rec.C08ReasmSound
   Frag.Split Frag.Buffer Frag.BufferSound.
 Open Scope N_scope.
 
@@ -139,6 +139,69 @@ Theorem C08_recv_conn_is_recv :
     recv_conn W lease false true s w = recv_est true W lease s w.
 Proof. exact recv_conn_established. Qed.
 Print Assumptions C08_recv_conn_is_recv.
+
+(* ---- the epoch-0 replay window never moves (5206069) ---- *)
+
+(* an unprotected record is checked against the epoch-0 window but its number is never committed *)
+Theorem C08_epoch0_window_never_moves :
+  forall (W : nat) (lease full est : bool) (s : rstate) (w : wire),
+    w_epoch w = 0 -> r_wins (fst (recv_top W lease full est s w)) = r_wins s.
+Proof. exact epoch0_window_never_moves. Qed.
+Print Assumptions C08_epoch0_window_never_moves.
+
+(* whatever record number an unprotected record carries (2^48-1 included) the replay verdict on every later
+   record is unchanged.  (Regression corpus: 16fefd0000ffffffffffff000d0b00006401f4000000000001aa and the warning
+   alert 15fefd0000ffffffffffff0002015a at every handshake step; before, ONE such record made every later
+   genuine epoch-0 record a "replay" and the handshake never completed.) *)
+Theorem C08_unprotected_number_harmless :
+  forall (W : nat) (lease full est : bool) (s : rstate) (g : wire) (e q : N),
+    w_epoch g = 0 ->
+    check maxseq48 (get_win W e (r_wins (fst (recv_top W lease full est s g)))) q =
+    check maxseq48 (get_win W e (r_wins s)) q.
+Proof. exact unprotected_number_harmless. Qed.
+Print Assumptions C08_unprotected_number_harmless.
+
+Theorem C08_epoch0_never_marks :
+  forall (W : nat) (lease full est : bool) (s : rstate) (w : wire),
+    w_epoch w = 0 -> marks (snd (recv_top W lease full est s w)) = [].
+Proof. exact epoch0_never_marks. Qed.
+Print Assumptions C08_epoch0_never_marks.
+
+Theorem C08_warning_alert_silent_before_establishment :
+  forall (W : nat) (lease full : bool) (s : rstate) (w : wire) (level desc : N),
+    w_epoch w = 0 -> w_clear w = CAlert level desc -> is_warning (CAlert level desc) = true ->
+    snd (recv_top W lease full false s w) = [].
+Proof. exact warning_alert_silent_before_establishment. Qed.
+Print Assumptions C08_warning_alert_silent_before_establishment.
+
+(* ---- KNOWN findings, as coded (witnesses) ---- *)
+
+(* K-C08-1: an unprotected return_routability_check record that decodes is answered with a fatal
+   unexpected_message alert and an error, in every phase (the pinned suite demands it) *)
+Theorem C08_unprotected_rrc_refuted :
+  forall (W : nat) (lease full est : bool) (s : rstate) (w : wire),
+    r_closed s = false -> w_epoch w = 0 -> w_clear w = CRrc ->
+    check maxseq48 (get_win W 0 (r_wins s)) (w_seq w) = true ->
+    snd (recv_top W lease full est s w) = [OAlert alert_fatal desc_unexpected_message; OErr].
+Proof. exact unprotected_rrc_refuted. Qed.
+Print Assumptions C08_unprotected_rrc_refuted.
+
+(* K-C08-2: the slot of a message the peer sends protected is taken by an unprotected record (reassembly is keyed
+   by message_seq only): the forged message is popped with epoch 0, the genuine one never *)
+Theorem C08_slot_theft_refuted :
+  map (fun p => (p_epoch p, p_body p)) (snd (fst (Buffer.run Buffer.init [slot_forged; slot_genuine]))) = [(0, [0; 0])] /\
+  map (fun p => (p_epoch p, p_body p)) (snd (fst (Buffer.run Buffer.init [slot_genuine]))) = [(2, [7; 7])].
+Proof. exact slot_theft_refuted. Qed.
+Print Assumptions C08_slot_theft_refuted.
+
+(* K-C08-3b: one forged first fragment pins the length of the next message, which is then never reassembled.
+   (K-C08-3a, 1200 stored fragments against the limit of 1000: the count limit is tested once per record, which is
+   exactly the bound C08_reassembly_bounds states - count + 1 <= max_count + K for records of at most K fragments.) *)
+Theorem C08_pinned_length_refuted :
+  snd (fst (Buffer.run Buffer.init [pin_forged; pin_genuine; pin_genuine])) = [] /\
+  map p_body (snd (fst (Buffer.run Buffer.init [pin_genuine]))) = [[1; 2; 3; 4]].
+Proof. exact pinned_length_refuted. Qed.
+Print Assumptions C08_pinned_length_refuted.
 
 (* ---- protected records that fail authentication ---- *)
 Theorem C08_forged_dropped :
